@@ -163,6 +163,23 @@ theorem opFlow_acct (cfg : Cfg) (s s' : State) (op : Op) (g' : Nat) (x : Addr) (
           simp only [ho, Except.ok.injEq] at hfl; subst hfl
           rw [flowDelta_append, hout _ ho, pairsFlow_obs _ cfg _ (by intro k g n; rw [acct_convertERC20 g' x hx]; omega) tokens flIn hi]
           simp only [stated]; split <;> simp
+  | vbcout c gfx u r v tokens =>
+    have hc3 := hc c rfl
+    simp only [opFlow] at hfl; exc'
+    cases hi : pairsFlow cfg tokens (fun k g n => convertERC20 k g (U u) (U u) n) with
+    | error e => simp [hi] at hfl
+    | ok flIn =>
+      simp only [hi] at hfl
+      cases ho : tokensFlow cfg c ((gfx, v) :: tokens) (fun k g n => baseCoinToBridgeToken k g c (U u) n) with
+      | error e => simp [ho] at hfl
+      | ok flOut =>
+        simp only [ho, Except.ok.injEq] at hfl; subst hfl
+        have hout := tokensFlow_obs (acctObs g' x) cfg c g' _ (if U u = x then -1 else 0)
+          (by intro k g n _; rw [acct_withdraw g' x hx k g c u n hc3]; split <;> split <;> simp_all)
+          ((gfx, v) :: tokens) flOut ho
+        rw [flowDelta_append, flowDelta_append, acct_valueIn g' x, hout,
+          pairsFlow_obs _ cfg _ (by intro k g n; rw [acct_convertERC20 g' x hx]; omega) tokens flIn hi]
+        simp only [stated]; split <;> simp
   | bcresult c nonce success =>
     have hc3 := hc c rfl
     simp only [opFlow] at hfl; exc'
